@@ -173,6 +173,10 @@ TABLE.update({
     "c17_nested_imports_relative_to_main.diff": ("box", "contracts.c17:preprocess:preprocess_arg_sets", None),
     "c17_env_path_before_local.diff": ("box", "contracts.c17:resolve_path:resolve_arg_sets", None),
     "c17_lines_stripped.diff": ("box", "contracts.c17:preprocess:preprocess_arg_sets", None),
+    "c12_edges_first_source_only.diff": ("box", "contracts.c12:collect_edges:collect_edges_arg_sets", None),
+    "c12_edges_unresolved_name.diff": ("box", "contracts.c12:collect_edges:collect_edges_arg_sets", None),
+    "c10_mst_not_minimal.diff": ("box", "contracts.c10:mst:mst_arg_sets", None),
+    "c10_mst_stops_early.diff": ("box", "contracts.c10:mst:mst_arg_sets", None),
     "c04_self_feedback_on_green.diff": ("box", "contracts.c04:self_feedback:self_feedback_arg_sets", None),
     "c04_cleanup_keeps_wires_of_removed_gate.diff": ("box", "contracts.c04:cleanup_gates:cleanup_arg_sets", None),
     "../seeded/C04-1/patch.diff": ("box", "contracts.c04:optimize_feedback:feedback_arg_sets", None),
